@@ -401,6 +401,57 @@ def grid(rng, draws):
                         continue          # two scalars: no array involved, once is enough
                     cases.append({"kind": "log2", "a": gen_operand(rng, ka, n, "unit"),
                                   "b": gen_operand(rng, kb, n, "unit")})
+        cases += special_values(rng)
+    return cases
+
+
+def special_operand(rng, form, t, n):
+    """a single operand whose central value is EXACTLY t (0 or 1); measurements carry a non-zero uncertainty"""
+    if form == "num":
+        return ["num", rng.choice([t, float(t)])]
+    if form == "npnum":
+        return ["npnum", float(t)]
+    if form == "meas":
+        return ["meas", rng.choice([t, float(t)]), gen_err(rng), rng.choice(UNITS)]
+    if form == "derived":       # (t +/- e1) * (v2 +/- e2): the value is t * v2
+        return ["derived", t, gen_err(rng), 1 if t else gen_val(rng, "pos"), gen_err(rng) / 4, rng.choice(UNITS)]
+    count, errs = form.split(":")[1:]
+    k = n if (count == "eq" and n >= 2) else rng.choice([c for c in (2, 3, 4) if c != n])
+    half = (k - 1) / 2
+    readings = [float(t + (i - half)) for i in range(k)]        # symmetric about t: the mean is exactly t
+    return ["rmeas", readings, [gen_err(rng) for _ in range(k)] if errs == "err" else None, rng.choice(UNITS)]
+
+
+SPECIAL_FORMS = ["num", "npnum", "meas", "derived", "rmeas:eq:plain", "rmeas:ne:err"]
+
+
+def special_values(rng):
+    """operands with central value exactly 0 or 1 (where shortcuts like "x + 0 is x", "1 * x is x" would bite),
+    on the left and on the right of every operator where that is inside the operator's domain; also arrays that
+    contain elements with value 0 and 1; log(A, 1-valued operand)"""
+    cases = []
+    for n in (1, 2, 5):
+        for op in BINOPS:
+            for sl in (True, False):
+                for t in (0, 1):
+                    if t == 0 and op == "/" and sl:
+                        continue            # A / 0
+                    if t == 0 and op == "**" and not sl:
+                        continue            # 0 ** A: the uncertainty involves log(0)
+                    for form in SPECIAL_FORMS:
+                        a_dom = "pos" if op in ("**", "/") else "any"
+                        cases.append({"kind": "binop", "op": op, "self_left": sl, "A": gen_arr(rng, n, a_dom),
+                                      "other": special_operand(rng, form, t, n)})
+        # the array itself holds the values 0 and 1
+        for op in ("+", "-", "*"):
+            for sl in (True, False):
+                for kind in ("num", "meas", "arr", "list"):
+                    A = gen_arr(rng, n, "any")
+                    A["values"] = [(0, 1, 0.0, 1.0, 0)[i % 5] for i in range(n)]
+                    cases.append({"kind": "binop", "op": op, "self_left": sl, "A": A,
+                                  "other": gen_operand(rng, kind, n, "any")})
+        for form in SPECIAL_FORMS:
+            cases.append({"kind": "log2", "a": ["arr", gen_arr(rng, n, "unit")], "b": special_operand(rng, form, 1, n)})
     return cases
 
 
@@ -416,7 +467,26 @@ def malformed(rng):
     return cases
 
 
+def central(o):
+    try:
+        if o[0] in ("num", "npnum", "meas"):
+            v = o[1]
+        elif o[0] == "rmeas":
+            v = sum(o[1]) / len(o[1])
+        elif o[0] == "derived":
+            v = o[1] * o[3]
+        else:
+            return ""
+        return "=0" if v == 0 else "=1" if v == 1 else ""
+    except Exception:  # noqa
+        return ""
+
+
 def okind(o):
+    return okind0(o) + central(o)
+
+
+def okind0(o):
     if o[0] == "rmeas":
         return "rmeas" + ("+err" if o[2] is not None else "") + "[{}]".format(len(o[1]))
     return o[0]
@@ -462,7 +532,7 @@ def correspondence(ctx):
                 "with / without individual reading uncertainties --, a calculated quantity, list, "
                 "ndarray, MeasurementArray) + unary minus + 19 vectorised math functions x 5 argument kinds + two-argument "
                 "log over 10 x 10 argument kinds (both positions), each for lengths 1, 2, 5 with random dyadic contents inside the domains "
-                "(thorough: 40 content draws), plus operands of mismatched length (must raise). Observed: the container "
+                "(thorough: 40 content draws), plus single operands whose central value is exactly 0 or 1 (numbers, numpy scalars, measurements with non-zero uncertainty, repeated, calculated) on both sides of every operator where inside its domain, arrays holding the values 0 and 1, log(A, 1); plus operands of mismatched length (must raise). Observed: the container "
                 "kind and, for every element of the result, its Formula tree (operator literal, operand identities: i-th "
                 "element object of which array / the measurement / Constant with which value / plain number), compared "
                 "with the dispatch model. non-trivial = distinct (cell, length) pairs covered")
@@ -472,7 +542,7 @@ def correspondence(ctx):
     per = 400
     for k in range(0, len(rows), per):
         chunk = rows[k:k + per]
-        text = HEADER + "Definition cases := {}.\nEval vm_compute in (bad_indices check_case cases).\n".format(
+        text = HEADER + "Definition cases : list (ccase * option (cont * list sval)) := {}.\nEval vm_compute in (bad_indices check_case cases).\n".format(
             coq_list([r[1] for r in chunk]))
         shards.append(text)
         index.append(k)
